@@ -226,6 +226,7 @@ type Sim struct {
 	custom    func(ev *Event)
 	doneFn    func() bool
 	gstFn     func()
+	probeFn   func()
 	heightFn  func(h uint32)
 	noDone    bool
 }
@@ -374,6 +375,9 @@ func (s *Sim) Run() {
 		s.st.Events++
 		s.st.Probe["ev:"+evNames[ev.Kind]]++
 		s.dispatch(ev)
+		if s.probeFn != nil {
+			s.probeFn()
+		}
 		if !s.noDone && s.done() {
 			break
 		}
